@@ -356,10 +356,47 @@ func (r *rewriter) genDecl(d *ast.GenDecl) {
 	}
 }
 
+// pureRewrite replaces sync.Once, sync.Pool, sync.Mutex and sync.RWMutex by
+// the controlled shims and leaves everything else alone.
+func pureRewrite(f *ast.File) {
+	importsSync := false
+	for _, im := range f.Imports {
+		if p, _ := strconv.Unquote(im.Path.Value); p == "sync" && im.Name == nil {
+			importsSync = true
+		}
+	}
+	if !importsSync {
+		return
+	}
+	ast.Inspect(f, func(n ast.Node) bool {
+		se, ok := n.(*ast.SelectorExpr)
+		if !ok {
+			return true
+		}
+		id, ok := se.X.(*ast.Ident)
+		if !ok || id.Name != "sync" || id.Obj != nil {
+			return true
+		}
+		switch se.Sel.Name {
+		case "Once", "Pool", "Mutex", "RWMutex":
+			se.X = ast.NewIdent("zzvsync")
+		}
+		return false
+	})
+	imp := &ast.GenDecl{Tok: token.IMPORT, Specs: []ast.Spec{&ast.ImportSpec{Name: ast.NewIdent("zzvsync"), Path: &ast.BasicLit{Kind: token.STRING, Value: strconv.Quote(vsyncPath)}}}}
+	keep := &ast.GenDecl{Tok: token.VAR, Specs: []ast.Spec{
+		&ast.ValueSpec{Names: []*ast.Ident{ast.NewIdent("_")}, Type: sel("sync", "Locker")},
+		&ast.ValueSpec{Names: []*ast.Ident{ast.NewIdent("_")}, Type: sel("zzvsync", "Mutex")},
+	}}
+	f.Decls = append([]ast.Decl{imp}, f.Decls...)
+	f.Decls = append(f.Decls, keep)
+}
+
 func main() {
 	out := flag.String("out", "", "output directory")
 	pkg := flag.String("pkg", "", "package name of the output files")
 	globals := flag.Bool("globals", false, "also insert scheduling points at accesses to written package-level variables and generate zzResetGlobals (see globals.go)")
+	pure := flag.Bool("pure", false, "with -globals: leave channels, select, go statements and context alone (code whose concurrency is not exercised); only sync.Once/Pool/Mutex/RWMutex become controlled shims")
 	flag.Parse()
 	if *out == "" || *pkg == "" || flag.NArg() == 0 {
 		fatal("usage: vrewrite -out DIR -pkg NAME file.go...")
@@ -370,7 +407,7 @@ func main() {
 	if *globals {
 		var all []*ast.File
 		for _, path := range flag.Args() {
-			f, err := parser.ParseFile(gfset, path, nil, 0)
+			f, err := parser.ParseFile(gfset, path, nil, parser.ParseComments)
 			if err != nil {
 				fatal("%v", err)
 			}
@@ -390,7 +427,7 @@ func main() {
 			gi.instrumentFile(f)
 		} else {
 			var err error
-			f, err = parser.ParseFile(fset, path, nil, parser.SkipObjectResolution)
+			f, err = parser.ParseFile(fset, path, nil, parser.SkipObjectResolution|parser.ParseComments)
 			if err != nil {
 				fatal("%v", err)
 			}
@@ -398,9 +435,22 @@ func main() {
 		r := &rewriter{fset: fset, file: path}
 		f.Name = ast.NewIdent(*pkg)
 		f.Doc = nil
+		for _, cg := range f.Comments {
+			for _, cm := range cg.List {
+				if strings.HasPrefix(cm.Text, "//go:embed") || strings.HasPrefix(cm.Text, "//go:linkname") {
+					fatal("%s: %s directives are not carried over by vrewrite", path, strings.Fields(cm.Text)[0])
+				}
+			}
+		}
 		f.Comments = nil
+		if *pure {
+			pureRewrite(f)
+		}
 		// imports
 		for _, im := range f.Imports {
+			if *pure {
+				break
+			}
 			p, _ := strconv.Unquote(im.Path.Value)
 			switch p {
 			case "sync":
@@ -415,11 +465,14 @@ func main() {
 			switch x := d.(type) {
 			case *ast.GenDecl:
 				x.Doc = nil
-				if x.Tok != token.IMPORT {
+				if x.Tok != token.IMPORT && !*pure {
 					r.genDecl(x)
 				}
 			case *ast.FuncDecl:
 				x.Doc = nil
+				if *pure {
+					continue
+				}
 				r.fields(x.Recv)
 				r.funcType(x.Type)
 				r.block(x.Body)
